@@ -1,2 +1,107 @@
+/-
+  C01 — expressions evaluate to the value their operator tree denotes.
+
+  (b) the complete operator/type table: for every operator family and *every* pair of runtime
+      types (payloads symbolic, so this is the whole table and not a sample): numbers use the IEEE
+      operation (`%` is the truncated remainder `Num.fmod`), `+` concatenates two strings and
+      allocates a fresh list for two lists, `== !=` are by value on scalars, by arena index on
+      containers and false across types, every other combination is a type error located at the
+      left operand;
+  (c) a group evaluates to what its content evaluates to; the operator sets of the precedence
+      levels are pairwise disjoint.
+  The parser half (the ladder inverts the flattening of every derivation tree) is in
+  `Pakhi/Props/C01Parse.lean` once closed; until then it is tied by the C01/C12 correspondence runs.
+-/
 import Pakhi.Model.Interp
 import Pakhi.Model.Parser
+namespace Pakhi
+namespace C01
+
+
+def isTypeErr {α} (r : Res α) (m : Meta) : Prop := ∃ e, r = .err e ∧ e.cls = .type ∧ e.line = m.line ∧ e.file = m.file
+
+/-- `+ -` : numbers add/subtract (IEEE), `+` concatenates two strings -/
+theorem addSub_num (m : Meta) (a b : Num.Bits) (h : Heap) :
+    addSub .plus m (.num a) (.num b) h = .ok (.num (Num.fadd a b), h) ∧
+    addSub .minus m (.num a) (.num b) h = .ok (.num (Num.fsub a b), h) := by simp [addSub]
+
+theorem addSub_str (m : Meta) (a b : Str) (h : Heap) :
+    addSub .plus m (.str a) (.str b) h = .ok (.str (a ++ b), h) ∧ isTypeErr (addSub .minus m (.str a) (.str b) h) m := by
+  simp [addSub, isTypeErr, metaErr, mkErr]
+
+/-- `+` on two lists allocates a new list holding the concatenation -/
+theorem addSub_list (m : Meta) (i j : Nat) (a b : List Val) (h : Heap) (hi : h.lists[i]? = some a) (hj : h.lists[j]? = some b) :
+    addSub .plus m (.list i) (.list j) h = .ok (h.allocList (a ++ b)) ∧ isTypeErr (addSub .minus m (.list i) (.list j) h) m := by
+  simp [addSub, hi, hj, isTypeErr, metaErr, mkErr]
+
+/-- every other operand combination of `+ -` is a type error at the left operand's line -/
+theorem addSub_type_error (op : TK) (m : Meta) (l r : Val) (h : Heap)
+    (hmix : ¬ (l.isNum ∧ r.isNum) ∧ ¬ (l.isStr ∧ r.isStr) ∧ ¬ (l.isList ∧ r.isList)) :
+    isTypeErr (addSub op m l r h) m := by
+  cases l <;> cases r <;> simp_all [addSub, isTypeErr, metaErr, mkErr, Val.isNum, Val.isStr, Val.isList]
+
+/-- `* / %` : IEEE product, quotient and truncated remainder on numbers, type error otherwise -/
+theorem mulDiv_table (op : TK) (m : Meta) (l r : Val) :
+    (∀ a b, l = .num a → r = .num b →
+        mulDiv .mul m l r = .ok (.num (Num.fmul a b)) ∧ mulDiv .div m l r = .ok (.num (Num.fdiv a b)) ∧
+        mulDiv .rem m l r = .ok (.num (Num.fmod a b))) ∧
+    (¬ (l.isNum ∧ r.isNum) → isTypeErr (mulDiv op m l r) m) := by
+  constructor
+  · intro a b hl hr; subst hl hr; simp [mulDiv]
+  · intro h; cases l <;> cases r <;> simp_all [mulDiv, isTypeErr, metaErr, mkErr, Val.isNum]
+
+/-- `< <= > >=` compare numbers (IEEE), type error otherwise -/
+theorem compare_table (op : TK) (m : Meta) (l r : Val) :
+    (∀ a b, l = .num a → r = .num b →
+        compare .lt m l r = .ok (.bool (Num.flt a b)) ∧ compare .le m l r = .ok (.bool (Num.fle a b)) ∧
+        compare .gt m l r = .ok (.bool (Num.flt b a)) ∧ compare .ge m l r = .ok (.bool (Num.fle b a))) ∧
+    (¬ (l.isNum ∧ r.isNum) → isTypeErr (compare op m l r) m) := by
+  constructor
+  · intro a b hl hr; subst hl hr; simp [compare]
+  · intro h; cases l <;> cases r <;> simp_all [compare, isTypeErr, metaErr, mkErr, Val.isNum]
+
+/-- `& |` on booleans, type error otherwise -/
+theorem andOr_table (isAnd : Bool) (m : Meta) (l r : Val) :
+    (∀ a b, l = .bool a → r = .bool b → andOr true m l r = .ok (.bool (b && a)) ∧ andOr false m l r = .ok (.bool (b || a))) ∧
+    (¬ (l.isBool ∧ r.isBool) → isTypeErr (andOr isAnd m l r) m) := by
+  constructor
+  · intro a b hl hr; subst hl hr; simp [andOr]
+  · intro h; cases l <;> cases r <;> simp_all [andOr, isTypeErr, metaErr, mkErr, Val.isBool]
+
+/-- `== !=` never fail; across types the answer is false / true -/
+theorem equality_total (m : Meta) (l r : Val) :
+    equality .eqeq m l r = .ok (.bool (valEq l r)) ∧ equality .ne m l r = .ok (.bool (!valEq l r)) := by
+  simp [equality]
+
+
+theorem valEq_cross_type (l r : Val) (h : l.kind ≠ r.kind) : valEq l r = false := by
+  cases l <;> cases r <;> simp_all [valEq, Val.kind]
+
+/-- scalars compare by value, containers by identity (arena index) -/
+theorem valEq_same_type :
+    (∀ a b, valEq (.num a) (.num b) = Num.feq a b) ∧ (∀ a b : Bool, valEq (.bool a) (.bool b) = (a == b)) ∧
+    (∀ a b : Str, valEq (.str a) (.str b) = (a == b)) ∧ (∀ i j : Nat, valEq (.list i) (.list j) = (i == j)) ∧
+    (∀ i j : Nat, valEq (.record i) (.record j) = (i == j)) ∧ valEq .nil .nil = true := by
+  simp [valEq]
+
+/-- unary `-` on numbers, `!` on booleans, type error otherwise -/
+theorem unary_table (op : TK) (m : Meta) (v : Val) :
+    (∀ n, unaryOp .minus m (.num n) = .ok (.num (Num.fnegMul n))) ∧ (∀ b, unaryOp .not m (.bool b) = .ok (.bool !b)) ∧
+    (¬ (op = .minus ∧ v.isNum) ∧ ¬ (op = .not ∧ v.isBool) → isTypeErr (unaryOp op m v) m) := by
+  refine ⟨by simp [unaryOp], by simp [unaryOp], ?_⟩
+  intro h
+  cases v <;> simp_all [unaryOp, isTypeErr, metaErr, mkErr, Val.isNum, Val.isBool]
+  all_goals (split <;> simp_all)
+
+/-- the operator sets of the six binary levels are pairwise disjoint: the ladder is well defined -/
+theorem levelOps_disjoint : ∀ i, i < 6 → ∀ j, j < 6 → i ≠ j → ∀ op ∈ levelOps i, op ∉ levelOps j := by
+  have key : ∀ i ∈ List.range 6, ∀ j ∈ List.range 6, i ≠ j → ∀ op ∈ levelOps i, op ∉ levelOps j := by decide
+  intro i hi j hj hne
+  exact key i (by simpa using hi) j (by simpa using hj) hne
+
+/-- parentheses do not change the value: a group evaluates to what its content evaluates to -/
+theorem eval_group (prog : List Stmt) (f : Nat) (cur : List Stmt) (e : Expr) (m : Meta) (s : St) :
+    eval prog (f+1) cur (.group e m) s = eval prog f cur e s := by
+  simp [eval]
+end C01
+end Pakhi
